@@ -32,6 +32,10 @@ CLAIMED = {
    note='Reals not floats; log/exp uninterpreted with ground axiom instances; torch.distributions validation off (domain constraints instead); n and grid size bounded as stated in the evidence; soft (temperature) skygrid outside the claim.',
    technique='symbolic execution of torchtree tensor code (SymTensor) + SMT (z3/cvc5, QF_UFNRA) with solver-certified path-region coverage'),
 }
+CLAIMED['C16'] = dict(level=MC, ref='DESIGN.md §4 C16',
+   text='The real LeapfrogIntegrator.__call__, Hamiltonian.kinetic_energy and HMCOperator._step/step/reject are executed with the target an UNINTERPRETED differentiable function: model() returns U(q), backward() is answered by symbolic reverse differentiation so the gradient and Hessian are uninterpreted function symbols. For symbolic positions, momenta, step size and SPD inverse mass matrix (diagonal and dense) the solver proves: flip-and-return gives (q,-p); det d(q\',p\')/d(q,p) = 1; the energy error and its first derivative in the step size vanish at 0 (so the error is O(eps^2)); the operator returns K(p_start)-K(p_end), proposes the trajectory end point, retries after a numerical failure and reject() restores the identical state. Bounded in dimension and number of steps (the loop body is the same for every step).',
+   note='Reals not floats ("up to round-off" is outside the claim); dimension <= 2, steps <= 2 quick / 3 thorough, one or two parameters per operator; Hessian symmetry of the target assumed (ground instances); momentum draw is an arbitrary symbolic vector; isnan guards false on real inputs; replays use torch.autograd on a quartic target.',
+   technique=TECH_A + '; uninterpreted differentiable target, autograd modelled by symbolic reverse differentiation, Jacobian determinant by Leibniz expansion')
 CLAIMED['C18'] = dict(level='other', engine='crosshair', ref='DESIGN.md §4 C18',
    text='CrossHair (z3) symbolically executes the real save_parameters against a modelled file system with a SYMBOLIC pre-state (each of name/.old/.new absent, complete or truncated, constrained by a representation invariant that CrossHair itself shows inductive), a symbolic crash index and a symbolic number of lost buffered chunks; post-conditions: a complete checkpoint remains and name is never truncated. One inductive step from an arbitrary valid state covers any number of consecutive interrupted writes. Counterexamples are replayed on a real temporary directory (single step and whole crash chain from a clean directory) before being reported. Bounded by the chunk count of the modelled json.dump and the per-condition time budget, hence "other" (bounded symbolic execution), not proof.',
    note='File-system model (atomic rename, partial writes, buffered data lost on crash before close) validated against the real os/open on hundreds of concrete runs per check; json.dump modelled as K chunk writes; process crash, not power loss (no fsync modelling); first write into an empty directory outside the claim; safely=False / overwrite=True in-place modes are documented non-atomic and only checked for leaving siblings untouched.',
